@@ -712,7 +712,7 @@ WTS = [0.1, 0.2, 0.3]
 
 class C17Prop(CommProp):
     id = "C17"
-    quick_n, thorough_n = 220, 4000
+    quick_n, thorough_n = 150, 4000
     nproc = 3
     want_repro = True
     rule = ("tie-rich graphs (paths, cycles, complete, stars, circulants, grids, two cliques with a bridge, random) "
@@ -835,8 +835,8 @@ C13.manifest = {
             "between the theorems and the state-level model: the bookkeeping invariants L1-L3 (Stot[c] = K_c, "
             "weights2com[c] = weight between u and c, generate_graph = aggregate) are not proved, so monotonicity and "
             "termination of the MODEL do not follow formally; that the model's generate_graph yields exactly the "
-            "list-level aggregate of its edges is evaluated on every case for the first aggregation step "
-            "(observation 76). Correspondence: the model (transcription of louvain.rs after the repairs) receives the "
+            "list-level aggregate of its edges, and that L1-L3 hold at the end of its first local-moving phase "
+            "(Stot[c] = K_c / Kin_c / Kout_c on the edge multiset), is evaluated on every case (observations 76, 77). Correspondence: the model (transcription of louvain.rs after the repairs) receives the "
             "shuffle order that the implementation's own rand version derives from the seed (the harness replays "
             "StdRng::seed_from_u64(seed) + shuffle for every level size) and the levels are compared exactly as sets of "
             "sets, except on runs where the exact model meets a tie between unequal operands (binary64 may round the "
